@@ -283,6 +283,92 @@ func VerifC06Versions() {
 	symx.Cover("end")
 }
 
+// VerifC06Types: two root types per version. Version 1 = a state root and an IO root (one symbolic entry each; the
+// two trees may hold the same entry, hence share a node), both finalized. Version 2 = the state root derived from
+// version 1's by one symbolic operation and a fresh IO root (IO roots never derive from an earlier version), with
+// cfg iosib=1 a competing IO root committed first and discarded; both finalized; then version 1 pruned or not.
+// After every step every retained finalized root of either type is read back completely.
+func VerifC06Types() {
+	ctx := context.Background()
+	var ns common.Namespace
+	db, err := New(&api.Config{Namespace: ns, MemoryOnly: true, NoFsync: true, MaxCacheSize: 16 * 1024 * 1024})
+	symx.Assert(err == nil, "opening the node database failed")
+	defer db.Close()
+	probe := symx.Bytes("probe", 1)
+
+	// version 1
+	sk, sv := symx.Bytes("stateKey", 1), symx.Bytes("stateVal", 1)
+	ts := mkvs.New(nil, db, node.RootTypeState)
+	symx.Assert(ts.Insert(ctx, sk, sv) == nil, "Insert failed")
+	cs1 := c06Set(nil, sk, sv)
+	_, hs1, err := ts.Commit(ctx, ns, 1)
+	symx.Assert(err == nil, "Commit of the state root of version 1 failed")
+	s1 := node.Root{Namespace: ns, Version: 1, Type: node.RootTypeState, Hash: hs1}
+	ik, iv := symx.Bytes("ioKey", 1), symx.Bytes("ioVal", 1)
+	ti := mkvs.New(nil, db, node.RootTypeIO)
+	symx.Assert(ti.Insert(ctx, ik, iv) == nil, "Insert failed")
+	ci1 := c06Set(nil, ik, iv)
+	_, hi1, err := ti.Commit(ctx, ns, 1)
+	symx.Assert(err == nil, "Commit of the IO root of version 1 failed")
+	ti.Close()
+	i1 := node.Root{Namespace: ns, Version: 1, Type: node.RootTypeIO, Hash: hi1}
+	symx.Assert(db.Finalize([]node.Root{s1, i1}) == nil, "Finalize of version 1 failed")
+	c06CheckRoot(ctx, db, s1, cs1, probe, "after finalizing version 1 (state root)")
+	c06CheckRoot(ctx, db, i1, ci1, probe, "after finalizing version 1 (IO root)")
+
+	// version 2
+	cs2 := append([]c06KV{}, cs1...)
+	opKey := symx.Bytes("opKey", 1)
+	if symx.Bool("opRemove") {
+		symx.Assert(ts.Remove(ctx, opKey) == nil, "Remove failed")
+		cs2 = c06Del(cs2, opKey)
+	} else {
+		opVal := symx.Bytes("opVal", 1)
+		symx.Assert(ts.Insert(ctx, opKey, opVal) == nil, "Insert failed")
+		cs2 = c06Set(cs2, opKey, opVal)
+	}
+	if symx.Cfg("iosib", 0) == 1 {
+		tc := mkvs.New(nil, db, node.RootTypeIO)
+		symx.Assert(tc.Insert(ctx, symx.Bytes("ioSibKey", 1), symx.Bytes("ioSibVal", 1)) == nil, "Insert failed")
+		_, _, err := tc.Commit(ctx, ns, 2)
+		symx.Assert(err == nil, "Commit of the competing IO root failed")
+		tc.Close()
+	}
+	_, hs2, err := ts.Commit(ctx, ns, 2)
+	symx.Assert(err == nil, "Commit of the state root of version 2 failed")
+	ts.Close()
+	s2 := node.Root{Namespace: ns, Version: 2, Type: node.RootTypeState, Hash: hs2}
+	ik2, iv2 := symx.Bytes("ioKey2", 1), symx.Bytes("ioVal2", 1)
+	ti2 := mkvs.New(nil, db, node.RootTypeIO)
+	symx.Assert(ti2.Insert(ctx, ik2, iv2) == nil, "Insert failed")
+	ci2 := c06Set(nil, ik2, iv2)
+	if symx.Cfg("ion", 1) >= 2 {
+		// a second entry, so that the IO root of version 2 has nodes besides its root node
+		ik3, iv3 := symx.Bytes("ioKey3", 1), symx.Bytes("ioVal3", 1)
+		symx.Assert(ti2.Insert(ctx, ik3, iv3) == nil, "Insert failed")
+		ci2 = c06Set(ci2, ik3, iv3)
+	}
+	_, hi2, err := ti2.Commit(ctx, ns, 2)
+	symx.Assert(err == nil, "Commit of the IO root of version 2 failed")
+	ti2.Close()
+	i2 := node.Root{Namespace: ns, Version: 2, Type: node.RootTypeIO, Hash: hi2}
+	symx.Assert(db.Finalize([]node.Root{s2, i2}) == nil, "Finalize of version 2 failed")
+	c06CheckRoot(ctx, db, s1, cs1, probe, "after finalizing version 2 (state root of version 1)")
+	c06CheckRoot(ctx, db, i1, ci1, probe, "after finalizing version 2 (IO root of version 1)")
+	c06CheckRoot(ctx, db, s2, cs2, probe, "after finalizing version 2 (state root)")
+	c06CheckRoot(ctx, db, i2, ci2, probe, "after finalizing version 2 (IO root)")
+	symx.Cover("two-versions")
+
+	if symx.Bool("prune") {
+		symx.Assert(db.Prune(1) == nil, "Prune of the earliest finalized version failed")
+		symx.Assert(db.GetEarliestVersion() == 2, "earliest version not advanced by pruning")
+		c06CheckRoot(ctx, db, s2, cs2, probe, "after pruning version 1 (state root)")
+		c06CheckRoot(ctx, db, i2, ci2, probe, "after pruning version 1 (IO root)")
+		symx.Cover("pruned")
+	}
+	symx.Cover("end")
+}
+
 // VerifC13Served (C13 on the real back end): for two consecutive finalized roots the write log the
 // database serves for the pair (GetWriteLog), applied to a tree at the first root, gives exactly the
 // second root. Version 2 is a symbolic batch on version 1, written by the tree that committed version 1
